@@ -1293,7 +1293,12 @@ class Interp:
         if isinstance(c, str):
             return mk_str(c)
         if isinstance(c, bytes):
-            raise OutOfSubset("bytes literal")
+            # bytes are sequences of ints
+            so = S.TList(TInt)
+            r = so.empty()
+            for b in c:
+                r = so.append(r, mk_int(b))
+            return r
         raise OutOfSubset(f"constant {c!r}")
 
     def ex_Name(self, n):
@@ -1424,6 +1429,8 @@ class Interp:
             res = vals[-1]
             for v in reversed(vals[:-1]):
                 t = self.truthy(v)
+                if isinstance(n.op, ast.Or) and isinstance(v, V) and isinstance(v.sort, S.TOpt) and isinstance(res, V) and not isinstance(res.sort, S.TOpt):
+                    v = v.sort.payload(v)  # `opt or default`: a truthy Optional is its payload
                 a, b = self.unify(v, res)
                 res = a.sort.ite(t, b, a) if isinstance(n.op, ast.And) else a.sort.ite(t, a, b)
             return res
